@@ -26,6 +26,9 @@
 EXTENDS EQLMech2
 CONSTANTS PreferWildcardB3,  \* TRUE: IndexedCache.retrieve before "fix: IndexedCache.retrieve ..." (wildcard branch
                              \* preferred); FALSE: follow every matching branch (the current code)
+          ReplayLeavesOutRepeats,    \* TRUE: of the cache entries that match a lookup, the ones that repeat a more general
+                             \* one with the same truth value are not replayed (commit "fix: a cached result stored
+                             \* under a partial binding ..."); FALSE: every matching entry is replayed, as before
           ForAllKeepsConditionVars  \* TRUE: for_all requires all non-universal variables of its condition from the
                              \* condition's results (commit "fix: for_all lost solutions ..."); FALSE: as before
 
@@ -68,6 +71,16 @@ CDescend(ents, ks, i, b, res) ==
           ELSE IF PreferWildcardB3 /\ has(0) THEN CDescend(sub(0), ks, i + 1, b, res)
                ELSE FlattenSeqs([j \in 1..Len(vals) |->
                       CDescend(sub(vals[j]), ks, i + 1, b, IF vals[j] = 0 THEN res ELSE [res EXCEPT ![k] = vals[j]])])
+
+\* _leave_out_repeated_outputs_: what yield_final_output_from_cache replays of the retrieved entries - an entry stored while
+\* a variable was unbound and an entry stored under a value of it can both match a lookup; a result that only binds more
+\* than another one with the same flag (or equals an earlier one) stands for rows the other one already produces
+Subsumes(r1, r2) == r1.o = r2.o /\ \A k \in 1..Len(r1.b) : r1.b[k] = 0 \/ r1.b[k] = r2.b[k]
+Hits(ents, ks, b) ==
+  LET d == CDescend(ents, ks, 1, b, b)
+      idx == SelectSeq([j \in 1..Len(d) |-> j],
+                       LAMBDA j : ~\E i \in 1..Len(d) : i # j /\ Subsumes(d[i], d[j]) /\ (d[i].b # d[j].b \/ i < j))
+  IN IF ReplayLeavesOutRepeats THEN [t \in 1..Len(idx) |-> d[idx[t]]] ELSE d
 
 \* key order: the cache sorts its keys by variable id, i.e. by the order in which the variables were declared
 DeclRank(q, v) == IF v <= NVars(q) /\ "declare" \in DOMAIN q /\ q.declare # <<>>
@@ -130,7 +143,7 @@ Ev3(n, path, b, ywf, RT, RF, S, q, W) ==
              chk == CCheck(CacheOf(S, ckey), RestrictB(b, keys))
              S1 == PutCache(S, ckey, chk.c)
          IN IF keys = {} THEN [outs |-> Ev(n, b, ywf, q, W), S |-> S]
-            ELSE IF chk.hit THEN Replay(CDescend(chk.c.ents, KeySeq(q, keys), 1, b, b), 1, path, RF, <<>>, S1)
+            ELSE IF chk.hit THEN Replay(Hits(chk.c.ents, KeySeq(q, keys), b), 1, path, RF, <<>>, S1)
             ELSE LET outs == Ev(n, b, ywf, q, W) IN [outs |-> outs, S |-> StoreAll(outs, 1, ckey, keys, S1)]
     [] n.k = "truth" -> [outs |-> Ev(n, b, ywf, q, W), S |-> S]
     [] n.k = "pred" ->
@@ -200,7 +213,7 @@ AndFold3(n, path, b, ywf, RT, RF, louts, i, acc, S, qw) ==
                    chk == CCheck(CacheOf(S, ckey), RestrictB(lb, keys))
                    S1 == PutCache(S, ckey, chk.c)
                IN IF chk.hit
-                  THEN LET H == Replay(CDescend(chk.c.ents, KeySeq(qw[1], keys), 1, lb, lb), 1, path, RF, <<>>, S1)
+                  THEN LET H == Replay(Hits(chk.c.ents, KeySeq(qw[1], keys), lb), 1, path, RF, <<>>, S1)
                        IN AndFold3(n, path, b, ywf, RT, RF, louts, i + 1, acc \o H.outs, H.S, qw)
                   ELSE LET R == Ev3(n.r, Append(path, 1), lb, ywf, RT, RF, S1, qw[1], qw[2])
                            outs == [j \in 1..Len(R.outs) |-> Out(MergeB(lb, R.outs[j].b), R.outs[j].f)]
@@ -231,7 +244,7 @@ ElifFold3(n, path, b, ywf, RT, RF, louts, i, acc, S, qw) ==
                    chk == CCheck(CacheOf(S, ckey), RestrictB(lb, keys))
                    S1 == PutCache(S, ckey, chk.c)
                IN IF chk.hit
-                  THEN LET H == Replay(CDescend(chk.c.ents, KeySeq(qw[1], keys), 1, lb, lb), 1, path, RF, <<>>, S1)
+                  THEN LET H == Replay(Hits(chk.c.ents, KeySeq(qw[1], keys), lb), 1, path, RF, <<>>, S1)
                        IN ElifFold3(n, path, b, ywf, RT, RF, louts, i + 1, acc \o H.outs, H.S, qw)
                   ELSE LET R == Ev3(n.r, Append(path, 1), lb, ywf, RT, RF, S1, qw[1], qw[2])
                            T == RightTrue3(path, RT, R.outs, lb, 1, <<>>, R.S, ywf, keys)
